@@ -59,4 +59,27 @@ CONF["C03"] = {
     "assumptions": ["exported container struct members are the routing specification", "marker fields are unsigned scalars outside component expansion so tags survive decoding unchanged (checked by C02)"],
 }
 
+CONF["C05"] = {
+    "pkg": "c05",
+    "level": "exploration",
+    "technique": "rapid-generated Files built through the public API, Encode output parsed by an independent FIT grammar parser with bitwise CRC and compared byte-for-byte with a model wire mapping of the File's values; post-conditions on the File",
+    "level_text": "Generated search with an independent parser as oracle: header, data size, both CRCs, definition-before-data, record lengths, size multiples, one data record per message in slot order, and the exact wire bytes of every field (model mapping, including string/array truncation and invalid padding) are checked on Encode's output for Files over all 17 file types, both byte orders and header sizes, including values outside the round-trip domain. The documented post-conditions on File.Header/CRC are asserted.",
+    "level_note": "Trusted: harness/fitmodel.Parse and the bitwise CRC; the mapping File value -> wire bytes (strings cut to length-1 and NUL padded, arrays cut/padded to the profile length, local times as wall-clock seconds). An Encode error with nothing written is outside this property (counted).",
+    "quick": {"checks": 3000, "timeout": 300, "shrinktime": "10s"},
+    "thorough": {"checks": 100000, "timeout": 1500, "shards": 8, "shrinktime": "30s"},
+    "rule": "files: rapid GenFile (file type, header size, protocol, byte order, 0..4 messages per slice slot, each field set with probability 25-50% to boundary-biased values, strings and arrays sometimes longer than the profile length); non-trivial = a slice slot holding at least 2 messages with different sets of set fields (group definition is a proper union); distinct by fingerprint of the spec. empty+all-invalid: every file type x header size x byte order, empty and with one all-invalid message per slot.",
+    "assumptions": ["fitmodel.Parse implements the FIT file grammar", "Files are built with NewHeader/NewFile/NewXMsg and exported fields only"],
+}
+CONF["C06"] = {
+    "pkg": "c06",
+    "level": "exploration",
+    "technique": "round-trip Decode(Encode(file)) on rapid-generated in-domain Files plus a deterministic per-field boundary sweep, compared up to the equivalences the property states, component destinations against the expansion model",
+    "level_text": "Generated search with the identity (up to the stated equivalences) as oracle: in-domain Files over all file types and both byte orders are encoded, decoded and compared field for field; arrays modulo trailing invalid padding, local times by wall clock, component destinations against the C18 model applied to the input. A sweep sets every field of every slot to in-domain boundary values one at a time.",
+    "level_note": "Trusted: the executable domain clause (valid UTF-8 without NUL up to length-1 bytes, arrays up to the profile length, seconds 1..2^32-2, valid coordinates, set scalars avoid the invalid pattern), the expansion model. Accumulated component destinations are compared here too; disagreements explained by open findings D10/D11/K1 are excluded and counted.",
+    "quick": {"checks": 3000, "timeout": 300, "shrinktime": "10s"},
+    "thorough": {"checks": 100000, "timeout": 1500, "shards": 8, "shrinktime": "30s"},
+    "rule": "sweep: one File per (slot of a file type, field, in-domain boundary value, byte order) - distinct by construction. files: rapid GenFile restricted to the representable domain; non-trivial = at least one array, string, local time or negative value set; distinct by fingerprint of the spec.",
+    "assumptions": ["domain clause as listed in level_note", "component expansion model of harness/fitmodel/expand.go"],
+}
+
 NOT_APPLICABLE = {}
